@@ -969,8 +969,10 @@ impl Server {
                         self.in_copy_mode = false;
                     }
 
-                    // Remove the prepared statement from the cache, it has a syntax error or something else bad happened.
-                    if let Some(prepared_stmt_name) =
+                    // Remove the prepared statements that are still being registered from the cache:
+                    // the one that failed (syntax error or something else bad happened) and every
+                    // later one of the batch, which the server skips until Sync.
+                    while let Some(prepared_stmt_name) =
                         self.registering_prepared_statement.pop_front()
                     {
                         if let Some(ref mut cache) = self.prepared_statement_cache {
